@@ -121,5 +121,23 @@ BitStrings ==
   IN /\ IbBits(rs) = ds.ib /\ BpBits(rs) = ds.bp /\ rs.s = ds.s
      /\ IbBits(rm) = dm.ib /\ BpBits(rm) = dm.bp /\ rm.s = dm.s
 
-Inv == (str = <<>> => ClassFacts) /\ ChunkLemma /\ PadLemma /\ Counts /\ BitStrings
+\* the packed run (bit_writer.rs with W-bit words) denotes the same bit strings
+WordsOfBits(bits, W) ==
+  [j \in 1..((Len(bits) + W - 1) \div W) |->
+     LET lo == (j - 1) * W
+     IN FoldLeft(LAMBDA acc, i : acc + (IF lo + i <= Len(bits) THEN bits[lo + i] * Pow2[i] ELSE 0),
+                 0, [i \in 1..W |-> i])]
+
+PackedSame ==
+  \A W \in {2, 3, 16} :
+    LET rs == RunStd(str)
+        rm == RunSimple(str)
+        ps == RunStdP(str, W)
+        pm == RunSimpleP(str, W)
+    IN /\ ps.s = rs.s /\ ps.n = rs.n /\ ps.bpn = rs.bpn
+       /\ ps.ib = WordsOfBits(IbBits(rs), W) /\ ps.bp = WordsOfBits(BpBits(rs), W)
+       /\ pm.s = rm.s /\ pm.n = rm.n /\ pm.bpn = rm.bpn
+       /\ pm.ib = WordsOfBits(IbBits(rm), W) /\ pm.bp = WordsOfBits(BpBits(rm), W)
+
+Inv == (str = <<>> => ClassFacts) /\ PackedSame /\ ChunkLemma /\ PadLemma /\ Counts /\ BitStrings
 =============================================================================
